@@ -95,12 +95,18 @@ def run(ctx):
             r = ctx.rng.random()
             if r < 0.7:
                 arg = [ctx.rng.choice([ctx.rng.randint(-3, N + 3), ctx.rng.randint(1, N), 0, N, N + 1, -1, 1]) for _ in range(ctx.rng.randint(0, 5))]
-                form = ctx.rng.choice(["list", "tuple", "int"])
+                form = ctx.rng.choice(["list", "tuple", "int", "np-list", "np-array"])
                 if form == "int" and arg:
                     arg = arg[:1]
                     out = common.call(o.set_phosphosites, arg[0])
                 elif form == "tuple":
                     out = common.call(o.set_phosphosites, tuple(arg))
+                elif form == "np-list":
+                    import numpy as np
+                    out = common.call(o.set_phosphosites, [np.int64(x) for x in arg])
+                elif form == "np-array":
+                    import numpy as np
+                    out = common.call(o.set_phosphosites, np.array(arg, dtype=int))
                 else:
                     out = common.call(o.set_phosphosites, list(arg))
                 if out[0] != "ok":
